@@ -23,12 +23,14 @@
        or it reads again and the ring is drained). A command written while the flag is set is refused
        (DriverProxy returns IllegalState::CouldNotWriteCommandToDriver); the correlation id has been taken by then.
        Strings fit the 512-byte scratch buffer (C13);
-     - callbacks do not call back into the conductor (is_in_callback is false at every entry point);
+     - callbacks do not call back into the conductor (is_in_callback is false at every entry point); what happens when
+       they do is Model/ConductorReent.v;
      - the conductor mutex: an entry point runs with the mutex held; a destructor the conductor runs itself is
        `dtor_locked`; if that destructor would lock the mutex again the operation's outcome is Hang.
    Definitions only. *)
 Require Import V.Base.MachineInt.
 Require Import V.Generated.GenConsts.
+Require Import V.Generated.GenLayout.
 Open Scope Z_scope.
 
 Inductive kind := KPub | KXPub | KSub | KCtr | KDest.
@@ -77,7 +79,8 @@ Definition upd (id : Z) (f : entry -> entry) (m : amap) : amap :=
   map (fun p => if fst p =? id then (fst p, f (snd p)) else p) m.
 Definition keys (m : amap) : list Z := map fst m.
 
-Inductive cerr := EServiceTimeout | EWasInactive | EInactive | EHeartbeatLost | EClientTimeout.
+Inductive cerr := EServiceTimeout | EWasInactive | EInactive | EHeartbeatLost | EClientTimeout
+  | EChannelEndpoint (x : Z).   (* ChannelEndpointException(offending_command_correlation_id, message): the id as the driver sent it *)
 
 Inductive cb :=
 | CbErr (e : cerr)
@@ -98,19 +101,27 @@ Inductive event :=
 | EvXPubReady (id stream session limit chstat : Z)      (* correlation id = registration id, as the driver sends it *)
 | EvSubReady (corr chstat : Z)
 | EvOpSuccess (corr : Z)
-| EvError (corr code : Z)                               (* code <> 4 (channel endpoint errors are not modelled) *)
+| EvError (corr code : Z)                               (* on_error_response: code <> 4 (the adapter sends code 4 to EvChanError, see ev_error) *)
 | EvAvailImage (corr session subpos subreg : Z)
 | EvUnavailImage (corr subreg : Z)
 | EvCounterReady (corr cid : Z)
 | EvUnavailCounter (corr cid : Z)
-| EvClientTimeout (cid : Z).
+| EvClientTimeout (cid : Z)
+| EvChanError (x : Z).                                  (* on_channel_endpoint_error_response: ErrorResponse with error code 4
+                                                           (CHANNEL_ENDPOINT_ERROR); x is the "offending correlation id" field, which
+                                                           for this code carries a channel status indicator id *)
+
+(* DriverListenerAdapter::receive_messages, arm ResponseOnError: the error code decides which listener method is called *)
+Definition ev_error (corr code : Z) : event :=
+  if code =? GenConsts.ERROR_CODE_CHANNEL_ENDPOINT_ERROR then EvChanError corr else EvError corr code.
 
 (* what the broadcast receiver yields in one duty cycle *)
 Inductive bcast := BNone | BLapped | BOversize | BEvent (e : event).
 
 Inductive op :=
 | Add (k : kind) (a1 a2 a3 : Z)
-   (* KPub/KXPub/KSub: channel, stream, -;  KCtr: type id, key length, label length;
+   (* KPub/KXPub/KSub: channel, stream, length of the channel string in bytes (0: the short default channel);
+      KCtr: type id, key length, label length;
       KDest: variant (0 add_destination, 1 remove_destination, 2 add_rcv_destination, 3 remove_rcv_destination), registration id, channel *)
 | Find (k : kind) (r : Z)
 | DropHandle (k : kind) (r : Z)
@@ -122,7 +133,8 @@ Inductive op :=
                                1: allocated, type = client heartbeat, key = this client id; 2: reclaimed;
                                3: allocated again as the heartbeat of another client (other key); 4: allocated with another type *)
 | SetRingFull (b : bool)
-| DoWork (b : bcast).
+| DoWork (b : bcast)
+| CloseHandle (k : kind) (r : Z).   (* the user calls the public close() of the Publication / ExclusivePublication it holds *)
 
 Record config := mkCfg { c_tdrv : Z; c_tis : Z }.   (* driver_timeout_ms, inter_service_timeout_ms *)
 
@@ -133,7 +145,9 @@ Record st := mkSt {
   closed : bool; driver_active : bool; close_sent : bool;
   now : Z; t_work : Z; t_keep : Z; t_res : Z;
   driver_hb : Z; hb_env : Z; hb_bound : bool;
-  ring_full : bool                  (* the driver has stopped reading its command ring and the ring has no room left *)
+  ring_full : bool;                 (* the driver has stopped reading its command ring and the ring has no room left *)
+  uclosed : list (kind * Z)         (* publications / exclusive publications on whose handle the user has called the public close():
+                                       only the handle's own flag is set, the conductor does not see it *)
 }.
 
 Definition getm (k : kind) (s : st) : amap :=
@@ -141,31 +155,32 @@ Definition getm (k : kind) (s : st) : amap :=
 
 Definition setm (k : kind) (m : amap) (s : st) : st :=
   match k with
-  | KPub => mkSt m (xpubs s) (subs s) (ctrs s) (dests s) (orphans s) (next_corr s) (client_id s) (next_h s) (closed s) (driver_active s) (close_sent s) (now s) (t_work s) (t_keep s) (t_res s) (driver_hb s) (hb_env s) (hb_bound s) (ring_full s)
-  | KXPub => mkSt (pubs s) m (subs s) (ctrs s) (dests s) (orphans s) (next_corr s) (client_id s) (next_h s) (closed s) (driver_active s) (close_sent s) (now s) (t_work s) (t_keep s) (t_res s) (driver_hb s) (hb_env s) (hb_bound s) (ring_full s)
-  | KSub => mkSt (pubs s) (xpubs s) m (ctrs s) (dests s) (orphans s) (next_corr s) (client_id s) (next_h s) (closed s) (driver_active s) (close_sent s) (now s) (t_work s) (t_keep s) (t_res s) (driver_hb s) (hb_env s) (hb_bound s) (ring_full s)
-  | KCtr => mkSt (pubs s) (xpubs s) (subs s) m (dests s) (orphans s) (next_corr s) (client_id s) (next_h s) (closed s) (driver_active s) (close_sent s) (now s) (t_work s) (t_keep s) (t_res s) (driver_hb s) (hb_env s) (hb_bound s) (ring_full s)
-  | KDest => mkSt (pubs s) (xpubs s) (subs s) (ctrs s) m (orphans s) (next_corr s) (client_id s) (next_h s) (closed s) (driver_active s) (close_sent s) (now s) (t_work s) (t_keep s) (t_res s) (driver_hb s) (hb_env s) (hb_bound s) (ring_full s)
+  | KPub => mkSt m (xpubs s) (subs s) (ctrs s) (dests s) (orphans s) (next_corr s) (client_id s) (next_h s) (closed s) (driver_active s) (close_sent s) (now s) (t_work s) (t_keep s) (t_res s) (driver_hb s) (hb_env s) (hb_bound s) (ring_full s) (uclosed s)
+  | KXPub => mkSt (pubs s) m (subs s) (ctrs s) (dests s) (orphans s) (next_corr s) (client_id s) (next_h s) (closed s) (driver_active s) (close_sent s) (now s) (t_work s) (t_keep s) (t_res s) (driver_hb s) (hb_env s) (hb_bound s) (ring_full s) (uclosed s)
+  | KSub => mkSt (pubs s) (xpubs s) m (ctrs s) (dests s) (orphans s) (next_corr s) (client_id s) (next_h s) (closed s) (driver_active s) (close_sent s) (now s) (t_work s) (t_keep s) (t_res s) (driver_hb s) (hb_env s) (hb_bound s) (ring_full s) (uclosed s)
+  | KCtr => mkSt (pubs s) (xpubs s) (subs s) m (dests s) (orphans s) (next_corr s) (client_id s) (next_h s) (closed s) (driver_active s) (close_sent s) (now s) (t_work s) (t_keep s) (t_res s) (driver_hb s) (hb_env s) (hb_bound s) (ring_full s) (uclosed s)
+  | KDest => mkSt (pubs s) (xpubs s) (subs s) (ctrs s) m (orphans s) (next_corr s) (client_id s) (next_h s) (closed s) (driver_active s) (close_sent s) (now s) (t_work s) (t_keep s) (t_res s) (driver_hb s) (hb_env s) (hb_bound s) (ring_full s) (uclosed s)
   end.
 
-Definition set_orphans v (s : st) := mkSt (pubs s) (xpubs s) (subs s) (ctrs s) (dests s) v (next_corr s) (client_id s) (next_h s) (closed s) (driver_active s) (close_sent s) (now s) (t_work s) (t_keep s) (t_res s) (driver_hb s) (hb_env s) (hb_bound s) (ring_full s).
-Definition set_next_corr v (s : st) := mkSt (pubs s) (xpubs s) (subs s) (ctrs s) (dests s) (orphans s) v (client_id s) (next_h s) (closed s) (driver_active s) (close_sent s) (now s) (t_work s) (t_keep s) (t_res s) (driver_hb s) (hb_env s) (hb_bound s) (ring_full s).
-Definition set_next_h v (s : st) := mkSt (pubs s) (xpubs s) (subs s) (ctrs s) (dests s) (orphans s) (next_corr s) (client_id s) v (closed s) (driver_active s) (close_sent s) (now s) (t_work s) (t_keep s) (t_res s) (driver_hb s) (hb_env s) (hb_bound s) (ring_full s).
-Definition set_closed v (s : st) := mkSt (pubs s) (xpubs s) (subs s) (ctrs s) (dests s) (orphans s) (next_corr s) (client_id s) (next_h s) v (driver_active s) (close_sent s) (now s) (t_work s) (t_keep s) (t_res s) (driver_hb s) (hb_env s) (hb_bound s) (ring_full s).
-Definition set_driver_active v (s : st) := mkSt (pubs s) (xpubs s) (subs s) (ctrs s) (dests s) (orphans s) (next_corr s) (client_id s) (next_h s) (closed s) v (close_sent s) (now s) (t_work s) (t_keep s) (t_res s) (driver_hb s) (hb_env s) (hb_bound s) (ring_full s).
-Definition set_close_sent v (s : st) := mkSt (pubs s) (xpubs s) (subs s) (ctrs s) (dests s) (orphans s) (next_corr s) (client_id s) (next_h s) (closed s) (driver_active s) v (now s) (t_work s) (t_keep s) (t_res s) (driver_hb s) (hb_env s) (hb_bound s) (ring_full s).
-Definition set_now v (s : st) := mkSt (pubs s) (xpubs s) (subs s) (ctrs s) (dests s) (orphans s) (next_corr s) (client_id s) (next_h s) (closed s) (driver_active s) (close_sent s) v (t_work s) (t_keep s) (t_res s) (driver_hb s) (hb_env s) (hb_bound s) (ring_full s).
-Definition set_t_work v (s : st) := mkSt (pubs s) (xpubs s) (subs s) (ctrs s) (dests s) (orphans s) (next_corr s) (client_id s) (next_h s) (closed s) (driver_active s) (close_sent s) (now s) v (t_keep s) (t_res s) (driver_hb s) (hb_env s) (hb_bound s) (ring_full s).
-Definition set_t_keep v (s : st) := mkSt (pubs s) (xpubs s) (subs s) (ctrs s) (dests s) (orphans s) (next_corr s) (client_id s) (next_h s) (closed s) (driver_active s) (close_sent s) (now s) (t_work s) v (t_res s) (driver_hb s) (hb_env s) (hb_bound s) (ring_full s).
-Definition set_t_res v (s : st) := mkSt (pubs s) (xpubs s) (subs s) (ctrs s) (dests s) (orphans s) (next_corr s) (client_id s) (next_h s) (closed s) (driver_active s) (close_sent s) (now s) (t_work s) (t_keep s) v (driver_hb s) (hb_env s) (hb_bound s) (ring_full s).
-Definition set_driver_hb v (s : st) := mkSt (pubs s) (xpubs s) (subs s) (ctrs s) (dests s) (orphans s) (next_corr s) (client_id s) (next_h s) (closed s) (driver_active s) (close_sent s) (now s) (t_work s) (t_keep s) (t_res s) v (hb_env s) (hb_bound s) (ring_full s).
-Definition set_hb_env v (s : st) := mkSt (pubs s) (xpubs s) (subs s) (ctrs s) (dests s) (orphans s) (next_corr s) (client_id s) (next_h s) (closed s) (driver_active s) (close_sent s) (now s) (t_work s) (t_keep s) (t_res s) (driver_hb s) v (hb_bound s) (ring_full s).
-Definition set_ring_full v (s : st) := mkSt (pubs s) (xpubs s) (subs s) (ctrs s) (dests s) (orphans s) (next_corr s) (client_id s) (next_h s) (closed s) (driver_active s) (close_sent s) (now s) (t_work s) (t_keep s) (t_res s) (driver_hb s) (hb_env s) (hb_bound s) v.
-Definition set_hb_bound v (s : st) := mkSt (pubs s) (xpubs s) (subs s) (ctrs s) (dests s) (orphans s) (next_corr s) (client_id s) (next_h s) (closed s) (driver_active s) (close_sent s) (now s) (t_work s) (t_keep s) (t_res s) (driver_hb s) (hb_env s) v (ring_full s).
+Definition set_orphans v (s : st) := mkSt (pubs s) (xpubs s) (subs s) (ctrs s) (dests s) v (next_corr s) (client_id s) (next_h s) (closed s) (driver_active s) (close_sent s) (now s) (t_work s) (t_keep s) (t_res s) (driver_hb s) (hb_env s) (hb_bound s) (ring_full s) (uclosed s).
+Definition set_next_corr v (s : st) := mkSt (pubs s) (xpubs s) (subs s) (ctrs s) (dests s) (orphans s) v (client_id s) (next_h s) (closed s) (driver_active s) (close_sent s) (now s) (t_work s) (t_keep s) (t_res s) (driver_hb s) (hb_env s) (hb_bound s) (ring_full s) (uclosed s).
+Definition set_next_h v (s : st) := mkSt (pubs s) (xpubs s) (subs s) (ctrs s) (dests s) (orphans s) (next_corr s) (client_id s) v (closed s) (driver_active s) (close_sent s) (now s) (t_work s) (t_keep s) (t_res s) (driver_hb s) (hb_env s) (hb_bound s) (ring_full s) (uclosed s).
+Definition set_closed v (s : st) := mkSt (pubs s) (xpubs s) (subs s) (ctrs s) (dests s) (orphans s) (next_corr s) (client_id s) (next_h s) v (driver_active s) (close_sent s) (now s) (t_work s) (t_keep s) (t_res s) (driver_hb s) (hb_env s) (hb_bound s) (ring_full s) (uclosed s).
+Definition set_driver_active v (s : st) := mkSt (pubs s) (xpubs s) (subs s) (ctrs s) (dests s) (orphans s) (next_corr s) (client_id s) (next_h s) (closed s) v (close_sent s) (now s) (t_work s) (t_keep s) (t_res s) (driver_hb s) (hb_env s) (hb_bound s) (ring_full s) (uclosed s).
+Definition set_close_sent v (s : st) := mkSt (pubs s) (xpubs s) (subs s) (ctrs s) (dests s) (orphans s) (next_corr s) (client_id s) (next_h s) (closed s) (driver_active s) v (now s) (t_work s) (t_keep s) (t_res s) (driver_hb s) (hb_env s) (hb_bound s) (ring_full s) (uclosed s).
+Definition set_now v (s : st) := mkSt (pubs s) (xpubs s) (subs s) (ctrs s) (dests s) (orphans s) (next_corr s) (client_id s) (next_h s) (closed s) (driver_active s) (close_sent s) v (t_work s) (t_keep s) (t_res s) (driver_hb s) (hb_env s) (hb_bound s) (ring_full s) (uclosed s).
+Definition set_t_work v (s : st) := mkSt (pubs s) (xpubs s) (subs s) (ctrs s) (dests s) (orphans s) (next_corr s) (client_id s) (next_h s) (closed s) (driver_active s) (close_sent s) (now s) v (t_keep s) (t_res s) (driver_hb s) (hb_env s) (hb_bound s) (ring_full s) (uclosed s).
+Definition set_t_keep v (s : st) := mkSt (pubs s) (xpubs s) (subs s) (ctrs s) (dests s) (orphans s) (next_corr s) (client_id s) (next_h s) (closed s) (driver_active s) (close_sent s) (now s) (t_work s) v (t_res s) (driver_hb s) (hb_env s) (hb_bound s) (ring_full s) (uclosed s).
+Definition set_t_res v (s : st) := mkSt (pubs s) (xpubs s) (subs s) (ctrs s) (dests s) (orphans s) (next_corr s) (client_id s) (next_h s) (closed s) (driver_active s) (close_sent s) (now s) (t_work s) (t_keep s) v (driver_hb s) (hb_env s) (hb_bound s) (ring_full s) (uclosed s).
+Definition set_driver_hb v (s : st) := mkSt (pubs s) (xpubs s) (subs s) (ctrs s) (dests s) (orphans s) (next_corr s) (client_id s) (next_h s) (closed s) (driver_active s) (close_sent s) (now s) (t_work s) (t_keep s) (t_res s) v (hb_env s) (hb_bound s) (ring_full s) (uclosed s).
+Definition set_hb_env v (s : st) := mkSt (pubs s) (xpubs s) (subs s) (ctrs s) (dests s) (orphans s) (next_corr s) (client_id s) (next_h s) (closed s) (driver_active s) (close_sent s) (now s) (t_work s) (t_keep s) (t_res s) (driver_hb s) v (hb_bound s) (ring_full s) (uclosed s).
+Definition set_ring_full v (s : st) := mkSt (pubs s) (xpubs s) (subs s) (ctrs s) (dests s) (orphans s) (next_corr s) (client_id s) (next_h s) (closed s) (driver_active s) (close_sent s) (now s) (t_work s) (t_keep s) (t_res s) (driver_hb s) (hb_env s) (hb_bound s) v (uclosed s).
+Definition set_uclosed v (s : st) := mkSt (pubs s) (xpubs s) (subs s) (ctrs s) (dests s) (orphans s) (next_corr s) (client_id s) (next_h s) (closed s) (driver_active s) (close_sent s) (now s) (t_work s) (t_keep s) (t_res s) (driver_hb s) (hb_env s) (hb_bound s) (ring_full s) v.
+Definition set_hb_bound v (s : st) := mkSt (pubs s) (xpubs s) (subs s) (ctrs s) (dests s) (orphans s) (next_corr s) (client_id s) (next_h s) (closed s) (driver_active s) (close_sent s) (now s) (t_work s) (t_keep s) (t_res s) (driver_hb s) (hb_env s) v (ring_full s) (uclosed s).
 
 (* ClientConductor::new on a fresh ring whose correlation counter is c0: DriverProxy::new takes the client id *)
 Definition init (c0 now0 : Z) : st :=
-  mkSt [] [] [] [] [] [] (c0 + 1) c0 0 false true false now0 now0 now0 now0 0 0 false false.
+  mkSt [] [] [] [] [] [] (c0 + 1) c0 0 false true false now0 now0 now0 now0 0 0 false false [].
 
 Definition res := outcome (list Z).
 Definition out := (res * list cb * list cmd)%type.
@@ -199,13 +214,30 @@ Definition remove_cmd_type (k : kind) : Z :=
   | _ => GenConsts.CMD_RemoveCounter
   end.
 
+(* DriverProxy encodes a command in a 512-byte scratch buffer; ensure_command_fits refuses (IllegalArgument, before a
+   correlation id is drawn) a command whose encoded length exceeds it: *_message_flyweight::encoded_length *)
+Definition CMD_BUF : Z := 512.
+Definition DEFAULT_CHANNEL_LENGTH : Z := 34.      (* "aeron:udp?endpoint=localhost:2000x", the channel the harness uses for channel number x *)
+Definition chan_len (l : Z) : Z := if l =? 0 then DEFAULT_CHANNEL_LENGTH else l.
+Definition add_cmd_len (k : kind) (a1 a2 a3 : Z) : Z :=
+  match k with
+  | KPub | KXPub => GenLayout.OFF_PublicationMessageDefn_channel_data + chan_len a3
+  | KSub => GenLayout.OFF_SubscriptionMessageDefn_channel_data + chan_len a3
+  | KCtr => GenLayout.SIZEOF_CounterMessageDefn + 4 + (a2 + 3) / 4 * 4 + 4 + a3
+  | KDest => GenLayout.OFF_DestinationMessageDefn_channel_data + DEFAULT_CHANNEL_LENGTH
+  end.
+(* arguments add_* refuses with IllegalArgument *)
+Definition add_illegal (k : kind) (a1 a2 a3 : Z) : bool :=
+  (kind_eqb k KCtr && ((MAX_KEY <? a2) || (MAX_LABEL <? a3))) || (CMD_BUF <? add_cmd_len k a1 a2 a3).
+
 Definition new_entry (t a1 a2 a3 : Z) : entry := mkEntry Awaiting (-1) t a1 a2 a3 (-1) (-1) (-1) (-1) None.
 
 (* ---- add_publication / add_exclusive_publication / add_subscription / add_counter / *_destination ---- *)
 Definition do_add (k : kind) (a1 a2 a3 : Z) (s : st) : st * out :=
   if negb (driver_active s) then (s, (Err DriverInactive, [], []))
   else if closed s then (s, (Err Closed, [], []))
-  else if kind_eqb k KCtr && ((MAX_KEY <? a2) || (MAX_LABEL <? a3)) then (s, (Err IllegalArg, [], []))
+  else if add_illegal k a1 a2 a3 then (s, (Err IllegalArg, [], []))
+        (* add_counter's own key / label limits, then DriverProxy::ensure_command_fits: nothing is consumed, nothing written *)
   else
     let id := next_corr s in
     let s1 := set_next_corr (id + 1) s in
@@ -342,10 +374,28 @@ Definition do_drop (k : kind) (r : Z) (s : st) : st * out :=
     end
   end.
 
+Definition in_uclosed (k : kind) (r : Z) (s : st) : bool :=
+  existsb (fun p => kind_eqb (fst p) k && (snd p =? r)) (uclosed s).
+
+(* is_closed() of the handle: closed by the conductor, or (publications) by the user's own close() *)
 Definition do_peek (k : kind) (r : Z) (s : st) : st * out :=
   match user_obj k r s with
   | None => (s, (Ok [], [], []))
-  | Some o => (s, (Ok [o_h o; if o_closed o then 1 else 0; Z.of_nat (length (o_images o)); o_d1 o; o_d2 o; o_d3 o], [], []))
+  | Some o => (s, (Ok [o_h o; if o_closed o || in_uclosed k r s then 1 else 0; Z.of_nat (length (o_images o)); o_d1 o; o_d2 o; o_d3 o], [], []))
+  end.
+
+(* Publication::close() / ExclusivePublication::close() called by the user on the handle it holds: the handle's closed flag is
+   set (offers answer "closed" from then on); the conductor is not involved - the registration stays until the handle is
+   dropped, which sends the Remove command as for every publication handle. (Counter::close() and
+   Subscription::close_and_remove_images() are public as well; a user calling them is not modelled.) *)
+Definition do_close_handle (k : kind) (r : Z) (s : st) : st * out :=
+  match k with
+  | KPub | KXPub =>
+      match user_obj k r s with
+      | Some _ => (set_uclosed ((k, r) :: uclosed s) s, (Ok [1], [], []))
+      | None => (s, (Ok [0], [], []))
+      end
+  | _ => (s, (Ok [0], [], []))
   end.
 
 (* ---- close_all_resources ---- *)
@@ -386,7 +436,7 @@ Definition close_all (s : st) : st * list cb * bool :=
     let orph := orphans s ++ close_pubs KPub (pubs s) ++ close_pubs KXPub (xpubs s) ++ kept KSub sl ++ kept KCtr cl in
     let hang := existsb dtor_locked (dropped sl ++ dropped cl) in
     let s1 := mkSt [] [] [] [] (dests s) orph (next_corr s) (client_id s) (next_h s) true (driver_active s) (close_sent s)
-                   (now s) (t_work s) (t_keep s) (t_res s) (driver_hb s) (hb_env s) (hb_bound s) (ring_full s) in
+                   (now s) (t_work s) (t_keep s) (t_res s) (driver_hb s) (hb_env s) (hb_bound s) (ring_full s) (uclosed s) in
     (s1, scbs ++ ccbs ++ [CbClose], hang).
 
 (* ---- Agent::on_close ---- *)
@@ -425,6 +475,61 @@ Definition on_error (corr code : Z) (s : st) : st :=
   | Some _ => setm KDest (upd corr (set_error code) (dests s)) s
   | None => s
   end end end end end.
+
+(* ---- on_channel_endpoint_error_response ----
+   Every subscription / publication / exclusive publication whose handle is alive (the weak reference upgrades: a
+   subscription from its ready answer on - cached or held -, a publication from its first lookup on, while the user holds
+   it) and whose channel_status_id() equals the id `as i32` is marked: the error handler is called once per resource, the
+   handle is closed (a subscription: its images are closed and reported, then it is closed), and the registration is
+   forgotten (the user keeps the closed handle). Registrations without a live handle (Awaiting, Errored, a publication
+   that was never looked up, a dropped handle) and counters / destinations are not touched.
+   Subscriptions come first, then publications, then exclusive publications; inside one map the order is the HashMap's
+   (here: the list's; the comparison with the implementation puts the groups in a canonical order). *)
+Definition chan_id (k : kind) (o : obj) : Z := match k with KSub => o_d1 o | _ => o_d2 o end.
+(* the live handle of the entry if it sits on that channel status indicator *)
+Definition chan_hit (k : kind) (x : Z) (e : entry) : option obj :=
+  match e_obj e with
+  | Some o => if chan_id k o =? wrap32 x then Some o else None
+  | None => None
+  end.
+(* is the registration forgotten? (a subscription only when close_and_remove_images really closed it) *)
+Definition chan_removed (k : kind) (x : Z) (p : Z * entry) : bool :=
+  match chan_hit k x (snd p) with
+  | Some o => match k with KSub => negb (o_closed o) | _ => true end
+  | None => false
+  end.
+Definition chan_keep (k : kind) (x : Z) (m : amap) : amap := filter (fun p => negb (chan_removed k x p)) m.
+Definition chan_cbs (k : kind) (x : Z) (m : amap) : list cb :=
+  flat_map (fun p => match chan_hit k x (snd p) with
+                     | Some o => CbErr (EChannelEndpoint x) :: match k with KSub => snd (close_sub_obj (fst p) o) | _ => [] end
+                     | None => []
+                     end) m.
+(* the handle after the conductor has closed it *)
+Definition chan_closed_obj (k : kind) (r : Z) (o : obj) : obj :=
+  match k with KSub => fst (close_sub_obj r o) | _ => obj_close o end.
+(* closed handles the user still holds *)
+Definition chan_orphans (k : kind) (x : Z) (m : amap) : list (kind * Z * obj) :=
+  flat_map (fun p => match chan_hit k x (snd p) with
+                     | Some o => if chan_removed k x p && (o_user o || negb (kind_eqb k KSub))
+                                 then [(k, fst p, chan_closed_obj k (fst p) o)] else []
+                     | None => []
+                     end) m.
+(* cached (never looked up) subscriptions whose registration is forgotten: their last strong reference goes away with the
+   entry, the destructor runs while the conductor's mutex is held *)
+Definition chan_dropped (x : Z) (m : amap) : list obj :=
+  flat_map (fun p => match chan_hit KSub x (snd p) with
+                     | Some o => if chan_removed KSub x p && negb (o_user o) then [chan_closed_obj KSub (fst p) o] else []
+                     | None => []
+                     end) m.
+
+Definition on_chan_error (x : Z) (s : st) : st * list cb * bool :=
+  let orph := orphans s ++ chan_orphans KSub x (subs s) ++ chan_orphans KPub x (pubs s) ++ chan_orphans KXPub x (xpubs s) in
+  let s1 := setm KSub (chan_keep KSub x (subs s)) s in
+  let s2 := setm KPub (chan_keep KPub x (pubs s)) s1 in
+  let s3 := setm KXPub (chan_keep KXPub x (xpubs s)) s2 in
+  (set_orphans orph s3,
+   chan_cbs KSub x (subs s) ++ chan_cbs KPub x (pubs s) ++ chan_cbs KXPub x (xpubs s),
+   existsb dtor_locked (chan_dropped x (subs s))).
 
 (* returns state, callbacks, hang *)
 Definition on_event (ev : event) (s : st) : st * list cb * bool :=
@@ -496,6 +601,7 @@ Definition on_event (ev : event) (s : st) : st * list cb * bool :=
       if (cid =? client_id s) && negb (closed s)
       then let '(s1, cbs, hang) := close_all s in (s1, cbs ++ [CbErr EClientTimeout], hang)
       else (s, [], false)
+  | EvChanError x => on_chan_error x s
   end.
 
 (* ---- on_heartbeat_check_timeouts ---- *)
@@ -562,6 +668,7 @@ Definition step (c : config) (s : st) (o : op) : st * out :=
   | SetHbCounter v => (set_hb_env v s, (Ok [], [], []))
   | SetRingFull b => (set_ring_full b s, (Ok [], [], []))
   | DoWork b => do_work c b s
+  | CloseHandle k r => do_close_handle k r s
   end.
 
 Fixpoint run (c : config) (s : st) (ops : list op) : st * list out :=
